@@ -73,6 +73,10 @@ const REPLICATION_FACTOR: usize = 20usize;
 /// Kademlia maximum message size. Should fit 64 KiB value + 4 KiB key.
 const DEFAULT_MAX_MESSAGE_SIZE: usize = 70 * 1024;
 
+/// Default maximum message size (verification seam).
+#[cfg(litep2p_verif)]
+pub const VERIF_DEFAULT_MAX_MESSAGE_SIZE: usize = DEFAULT_MAX_MESSAGE_SIZE;
+
 /// Kademlia configuration.
 #[derive(Debug)]
 pub struct Config {
